@@ -1,7 +1,7 @@
 (* C04/Proofs2.v — table consistency (finite, by computation over Gen/C04Gen.v) and the encoding facts
    that depend on the dtype tables. *)
 From Coq Require Import NArith ZArith List Bool Arith Lia ZifyBool.
-From IRV Require Import Base.Exn Gen.C04Gen C04.Model C04.Proofs1.
+From IRV Require Import Base.Exn Gen.C04Gen C04.Model C04.Proofs1 C04.ProofsTc.
 Import ListNotations.
 Open Scope N_scope.
 Ltac Zify.zify_post_hook ::= Z.to_euclidean_division_equations.
@@ -208,6 +208,9 @@ Proof.
     match goal with |- context [itemsize_of ?b] => let v := eval vm_compute in (itemsize_of b) in change (itemsize_of b) with v end;
     lia.
 Qed.
+
+Lemma nbytes_code_exact bw size : size < 2 ^ 53 -> nbytes_code bw size = nbytes_bw bw size.
+Proof. intros H. unfold nbytes_code, nbytes_bw, rne53. apply N.ltb_lt in H. rewrite H. reflexivity. Qed.
 
 Lemma le_pack_length dt bw xs : bitwidth dt = Some bw ->
   N.of_nat (length (le_pack dt xs)) = nbytes_bw bw (N.of_nat (length xs)).
